@@ -149,7 +149,9 @@ Definition case_spec_ok (c : case) : bool :=
       impl_err || (total_index_writes p <? k)%nat
   | CLimit p init limit died ops =>
       match limit_fault p limit with
-      | Some _ => died && no_publish ops
+      | Some x => died && no_publish ops
+                  && (negb (fname_eqb (ftarget x) SdocsTmp)
+                      || forallb (fun o => match o with ORename SdocsTmp Sdocs => false | _ => true end) ops)
       | None => true
       end
   end.
